@@ -244,6 +244,8 @@ def _make_observed(L: Lib) -> type:
                 old = None
             cs_slot.__set__(self, v)
             self._w.rec("state", conn=self._oid, old=old.name if old is not None else None, new=v.name)
+            if v.name == "CLOSED" and (old is None or old.name != "CLOSED"):
+                self._w.post_close_probe(self._oid)
 
         connection_state = property(_get_cs, _set_cs)
 
